@@ -302,6 +302,7 @@ func init() {
 	M := func(recv, name string, f externalFn) { externals["(*"+pfx+recv+")."+name] = f }
 
 	M("DB", "NewTransaction", func(fr *frame, args []value) value {
+		txnPoint(fr)
 		return box(newTxn(fr.i.path, db(args[0]), args[1].(bool)))
 	})
 	M("DB", "IsClosed", func(fr *frame, args []value) value { return db(args[0]).closed })
@@ -325,8 +326,14 @@ func init() {
 		t.done = true
 		return iface{}
 	}
-	M("DB", "View", func(fr *frame, args []value) value { return runIn(fr, db(args[0]), false, args[1]) })
-	M("DB", "Update", func(fr *frame, args []value) value { return runIn(fr, db(args[0]), true, args[1]) })
+	M("DB", "View", func(fr *frame, args []value) value {
+		txnPoint(fr)
+		return runIn(fr, db(args[0]), false, args[1])
+	})
+	M("DB", "Update", func(fr *frame, args []value) value {
+		txnPoint(fr)
+		return runIn(fr, db(args[0]), true, args[1])
+	})
 	M("DB", "GetSequence", func(fr *frame, args []value) value {
 		d := db(args[0])
 		key := keyBytes(args[1])
